@@ -26,6 +26,7 @@ import tempfile
 
 from . import common
 from . import store_hist as sh
+from . import tieb_stores
 from .common import Check, sx
 from .evutil import BASE, pulse_us
 
@@ -331,7 +332,7 @@ def main(argv=None):
     ck = Check("C07", argv)
     common.setup_impl_env()
     ck.run_witnesses(["w05"])
-    ck.prove()
+    ck.prove(extra_targets=tieb_stores.STORES_DS[0], gen_kernels=tieb_stores.STORES_DS[1])   # ties A + B
     have_driver = ck.driver()
 
     n_rand, n_bad = (700, 250) if ck.tier == "quick" else (24000, 8000)
